@@ -9,6 +9,8 @@ CONSTANTS
   HandlerSeqs <- QB_HSeqs
   UpProgs <- QB_UpProgs
   CRProg <- QB_CR
+  Forms = {"fresh"}
+  Colls = {}
   QuitOn = FALSE
   QuitDeferred = FALSE
   DefCap = 0
